@@ -13,13 +13,28 @@ from __future__ import annotations
 import math
 import os
 
+import numpy as np
+
 from sim import prng
 from sim.engine import World
 
 NAMES = ["A", "B", "A_1", "H1", "A_1_1", "B_1", "A_2", "c", "", "A "]
 ATTRS = ["t_supply", "t_target", "heat_flow", "dt_cont", "htc"]
 SORT_ATTRS = ["t_supply", "t_target", "heat_flow", "dt_cont", "name", "t_min", "t_max", "CP", "t_min_star", "t_max_star", "htc"]
+def _dirn(s):
+    if s.t_supply is None or s.t_target is None:
+        return 0
+    return int(bool(s.t_supply > s.t_target)) - int(bool(s.t_supply < s.t_target))
+
+
+def _fragile(s):
+    if s.dt_cont == 10:
+        raise RuntimeError("no key for this member")
+    return s.t_supply
+
+
 CALLABLES = {
+    "fragile": _fragile,
     "neg_t_supply": lambda s: -s.t_supply,
     "span": lambda s: s.t_max - s.t_min,
     "name_len": lambda s: (len(s.name), s.name),
@@ -38,7 +53,7 @@ def _temp(r, nice):
 def _duty(r, nice, swarm):
     x = r.random()
     if x < swarm["p_zero_duty"]:
-        return 0.0
+        return 0.0 if r.random() < 0.7 else -0.0
     if x < swarm["p_zero_duty"] + swarm["p_neg_duty"]:
         return -float(r.choice([1, 10, 250]))
     return float(r.choice([1, 10, 100, 1000, 2500])) if nice else round(r.uniform(0.01, 5000), r.choice([0, 2, 6]))
@@ -93,6 +108,8 @@ class C19(World):
             p_zero_duty=sw.choice([0, 0, 0.02, 0.1]),
             p_neg_duty=sw.choice([0, 0, 0, 0.05]),
             p_neg_htc=sw.choice([0, 0, 0.08]),
+            p_incomplete=sw.choice([0, 0, 0.15]),
+            p_numpy=sw.choice([0, 0, 0.2]),
             w_stream=sw.choice([0, 1, 3]),
             w_coll=sw.choice([0, 1, 3]),
             names=sw.choice([2, 4, len(NAMES)]),
@@ -113,6 +130,11 @@ class C19(World):
         def new_stream():
             ts = _temp(args, nice)
             tt = ts if args.random() < swarm["equal_t"] else _temp(args, nice)
+            if args.random() < swarm["p_incomplete"]:
+                # created without (all of) its temperatures; the setters fill them in later
+                which = args.choice(["t_supply", "t_target", "both"])
+                kw = dict(name=args.choice(names), t_supply=None if which != "t_target" else ts, t_target=None if which != "t_supply" else tt, heat_flow=_duty(args, nice, swarm), dt_cont=_value(args, "dt_cont", nice, swarm), htc=abs(_value(args, "htc", nice, swarm)))
+                return dict(op="new_stream", kw=kw)
             kw = dict(name=args.choice(names), t_supply=ts, t_target=tt, heat_flow=_duty(args, nice, swarm), dt_cont=_value(args, "dt_cont", nice, swarm), htc=_value(args, "htc", nice, swarm))
             return dict(op="new_stream", kw=kw)
 
@@ -132,6 +154,8 @@ class C19(World):
             elif op == "set":
                 attr = args.choice(ATTRS)
                 st = dict(op="set", s=args.randrange(64), attr=attr, v=_value(args, attr, nice, swarm))
+                if attr in ("t_supply", "t_target", "htc") and args.random() < swarm["p_numpy"] and float(st["v"]).is_integer() and st["v"] > 0:
+                    st["np"] = args.choice(["int64", "int32", "float64"])  # a NumPy scalar, as produced by arr.max() or a DataFrame cell
                 if attr in ("t_supply", "t_target") and not swarm["flip"]:
                     st["keep_dir"] = True  # resolved at execution: value is mirrored so that the direction is kept
             elif op == "set_heat_flow":
@@ -167,6 +191,7 @@ class C19(World):
             if op in MUTATORS and op != "new_coll":
                 # which observation is made first after the mutator (the lazy cache is clean after any one of them)
                 st["obs"] = [args.choice(["iter", "getitem", "get_index"]), args.randrange(-8, 9)]
+                st["open_iter"] = args.random() < 0.2  # an iteration is in progress (one item consumed) when the mutator is called
             steps.append(st)
         return dict(swarm=swarm, steps=steps)
 
@@ -222,7 +247,7 @@ class C19(World):
                 return {spec}
             if kind == "list":
                 return set(spec)
-            return {"neg_t_supply": {"t_supply"}, "span": {"t_min", "t_max"}, "name_len": {"name"}, "const": set()}[spec]
+            return {"neg_t_supply": {"t_supply"}, "span": {"t_min", "t_max"}, "name_len": {"name"}, "const": set(), "fragile": {"t_supply", "dt_cont"}}[spec]
 
         def model_add(m, key, si, po):
             orig, counter = key, 1
@@ -241,11 +266,22 @@ class C19(World):
 
         def check_stream(i, step, last_op):
             s, fl = streams[i], flags[i]
+            if s.t_supply is None or s.t_target is None:
+                return  # not a stream yet: nothing to judge until both temperatures are set
+            if fl.get("incomplete"):
+                fl["incomplete"] = False
+                probe("incomplete_stream_completed")
             try:
                 hf, cp, tmin, tmax = s.heat_flow, s.CP, s.t_min, s.t_max
                 tmins, tmaxs, dt, htc, htr, typ = s.t_min_star, s.t_max_star, s.dt_cont, s.htc, s.htr, s.type
                 ts, tt = s.t_supply, s.t_target
             except AttributeError as e:
+                if s.t_supply == s.t_target and s.heat_flow == 0:
+                    # zero span and zero duty from the moment it became complete: the same "no stream at all" case for which
+                    # the constructor raises; recorded, not judged
+                    fl["degenerate"] = True
+                    probe("degenerate_from_birth")
+                    return
                 V("stream_attrs", f"{last_op}|missing", step, f"stream {i}: {e}", ("s", i))
                 return
             if ts == tt and hf == 0:
@@ -347,6 +383,13 @@ class C19(World):
             outcome = None
             touched_stream = None
             touched_colls = set()
+            if st.get("open_iter") and colls and "c" in st:
+                try:
+                    it_open = iter(colls[st["c"] % len(colls)])
+                    next(it_open, None)
+                    probe("mutator_called_during_iteration")
+                except Exception:
+                    pass
             if "c" in st and colls:
                 touched_colls.add(st["c"] % len(colls))
             if op == "concat" and colls:
@@ -360,7 +403,10 @@ class C19(World):
                     probe("ctor_raised")
                     s = None
                 if s is not None:
-                    fl = dict(zero_span=kw["t_supply"] == kw["t_target"], zero_duty=kw["heat_flow"] == 0, neg_duty=kw["heat_flow"] < 0)
+                    fl = dict(zero_span=kw["t_supply"] is not None and kw["t_supply"] == kw["t_target"], zero_duty=kw["heat_flow"] == 0, neg_duty=kw["heat_flow"] < 0)
+                    if kw["t_supply"] is None or kw["t_target"] is None:
+                        fl["incomplete"] = True
+                        probe("stream_created_incomplete")
                     if len(streams) < MAX_STREAMS:
                         streams.append(s)
                         flags.append(fl)
@@ -378,13 +424,17 @@ class C19(World):
                     i = st["s"] % len(streams)
                     s, fl = streams[i], flags[i]
                     attr, v = (st["attr"], st["v"]) if op == "set" else ("heat_flow", st["v"])
-                    if op == "set" and st.get("keep_dir") and attr in ("t_supply", "t_target"):
+                    if st.get("np"):
+                        v = getattr(np, st["np"])(v)
+                        probe("numpy_scalar_assigned")
+                    incomplete = s.t_supply is None or s.t_target is None
+                    if op == "set" and st.get("keep_dir") and attr in ("t_supply", "t_target") and not incomplete:
                         other = s.t_target if attr == "t_supply" else s.t_supply
                         hot = s.t_supply > s.t_target
                         want_gt = hot if attr == "t_supply" else not hot
                         if (v > other) != want_gt or v == other:
                             v = other + (abs(v - other) + 1.0) * (1 if want_gt else -1)
-                    before_dir = (s.t_supply > s.t_target) - (s.t_supply < s.t_target)
+                    before_dir = 0 if incomplete else _dirn(s)
                     try:
                         if op == "set":
                             setattr(s, attr, v)
@@ -396,13 +446,19 @@ class C19(World):
                     except Exception as e:
                         outcome = "raise:" + type(e).__name__
                         probe("setter_raised")
-                    after_dir = (s.t_supply > s.t_target) - (s.t_supply < s.t_target)
-                    if op == "set" and outcome == "ok" and not (s.t_supply == s.t_target and s.heat_flow == 0):
+                    still_incomplete = s.t_supply is None or s.t_target is None
+                    after_dir = 0 if still_incomplete else _dirn(s)
+                    if incomplete and not still_incomplete:
+                        # first full classification: everything derived was just computed from scratch
+                        fl.update(zero_span=False, degenerate=False)
+                    if still_incomplete:
+                        pass
+                    elif op == "set" and outcome == "ok" and not (s.t_supply == s.t_target and s.heat_flow == 0):
                         fl["degenerate"] = False  # a property setter recomputes every derived attribute from scratch
                     if before_dir and after_dir and before_dir != after_dir:
                         fl["flipped"] = True
                         probe("direction_flip")
-                    if attr in ("t_supply", "t_target") and v == (s.t_target if attr == "t_supply" else s.t_supply):
+                    if not still_incomplete and attr in ("t_supply", "t_target") and v == (s.t_target if attr == "t_supply" else s.t_supply):
                         fl["zero_span"] = True
                         probe("zero_span_assigned")
                     if attr == "heat_flow":
@@ -514,13 +570,17 @@ class C19(World):
                     pass
                 elif snapshot(a) != before_a or snapshot(b) != before_b:
                     V("concat_operands", op + "|structural", step, f"operands {a},{b} changed by +")
-                got = sorted(id(s) for s in res)
+                try:
+                    got = sorted(id(s) for s in res)
+                except Exception as e:  # the default sort key cannot order a member yet (incomplete stream): membership judged via len only
+                    got = None
+                    log.append(("concat_iter_exc", type(e).__name__))
                 exp = sorted(id(streams[si]) for _, si in models[a]) + sorted(id(streams[si]) for _, si in models[b])
                 tick("concat")
                 if a in dead_colls or b in dead_colls:
                     pass
-                elif got != sorted(exp) or len(res) != len(exp):
-                    V("concat", op + "|structural", step, f"a+b holds {len(got)} (len {len(res)}) of {len(exp)} members")
+                elif (got is not None and got != sorted(exp)) or len(res) != len(exp):
+                    V("concat", op + "|structural", step, f"a+b holds {len(got) if got is not None else '?'} (len {len(res)}) of {len(exp)} members")
                 d = st["dst"]
                 dst_dead = a in dead_colls or b in dead_colls
                 if d < len(colls):
@@ -617,7 +677,7 @@ class C19(World):
                     ev.append(["iter_exc"])
             log.append(ev)
             ab = (
-                tuple((getattr(s, "type", None), (s.t_supply > s.t_target) - (s.t_supply < s.t_target), (s.heat_flow > 0) - (s.heat_flow < 0)) for s in streams),
+                tuple((getattr(s, "type", None), 9 if (s.t_supply is None or s.t_target is None) else _dirn(s), int(bool(s.heat_flow > 0)) - int(bool(s.heat_flow < 0))) for s in streams),
                 tuple((len(m), cmeta[j]["stale"], cmeta[j]["kind"], cmeta[j]["reverse"], sum(1 for k, si in m if k != streams[si].name)) for j, m in enumerate(models)),
             )
             states.add(prng.digest(ab))
